@@ -13,7 +13,25 @@ HeadState / StateAtBlockNumber / StateAtBlockHash and compared with the model's 
 is restarted at random points (Restart is a no-op of the model: RestartIsNoOp), and readers
 obtained by number / by hash at earlier steps are kept ("held readers") and must keep answering
 for their own block while later blocks are stored.
+
+Revert side of the encodings (what a RevertHead leaves behind, seen by later reads on the
+replacement branch): StateHistory.tla has a mechanism switch RevertKeeps with one mutant per residue
+kind and encoding ("the revert leaves the history entry of a zero write / same-value rewrite /
+other write / nonce / replaced class / deployment / class record / CASM metadata behind");
+StateHistory_x_keep_*.cfg must each violate ReadsAgree (TLC's counterexample is the minimal history
+that shows the leftover). From those counterexamples a family of DIRECTED behaviours is derived
+(StateHistoryScripts.tla: every entry kind of the alphabet x {non-touching replacement, touching
+replacement, two-deep revert with another prior value, same diff at a lower height, restarts},
+each ending with a later rewrite of the key and its revert) and replayed in every run on both
+backends, with readers of every block held across the reverts; thorough also lets TLC check the
+kill matrix (every mutant violates ReadsAgree on the directed family alone). Half of the simulated
+behaviours come from a walk guided towards revert-after-K ; non-touching replacement
+(StateHistory_forksim.cfg). After every Apply / Revert step the raw history buckets of the real
+database (history entries, deployment heights, class records, CASM metadata) are compared entry by
+entry with the specification's encodings (`enc`), so a leftover is reported at the revert
+(hist-residue:<backend>:<bucket>:<kind>) and not only when a read happens to hit it.
 """
+import concurrent.futures
 import copy
 import glob
 import json
@@ -22,6 +40,12 @@ import re
 import vlib
 
 H4_KEY = "legacy-revert:noop-zero-write"
+
+# RevertKeeps mutants of StateHistory.tla: (encoding, kind); cfg StateHistory_x_keep_<e>_<k>.cfg
+KEEP_KINDS = [("n", "stor0"), ("n", "storsame"), ("n", "stor"), ("n", "nonce"), ("n", "rep"), ("n", "dep"),
+              ("n", "rec"), ("n", "decl"), ("l", "stor0"), ("l", "storsame"), ("l", "stor"), ("l", "nonce"),
+              ("l", "rep"), ("l", "dh"), ("l", "decl"), ("c", "decl"), ("c", "mig")]
+SCRIPT_TAILS = {"nontouch", "touch", "deep", "lower", "restart"}
 
 
 def h4_fixed():
@@ -62,6 +86,89 @@ def behaviours(ctx, cfg, runs, depth, fix, base):
                               files={"gen_" + cfg: sim_cfg(cfg, fix)})
         for b in bs:
             out.append({"seed": ctx.seed * 100000 + len(out) + base * 1000, "steps": b})
+    return out
+
+
+def _retry_oom(fn, *a, **kw):
+    """A TLC JVM killed by the kernel on a loaded machine ends with an empty message: run it once more."""
+    try:
+        return fn(*a, **kw)
+    except vlib.Broken as e:
+        if "TLC failed" not in str(e) or "Error" in str(e) or "rror:" in str(e):
+            raise
+        vlib.log("TLC died without a message (killed?), once more: %s" % (a[2] if len(a) > 2 else ""))
+        return fn(*a, **kw)
+
+
+def keep_mutants(ctx, pool, matrix):
+    """Expected-violation configurations of the revert mechanism switch, run beside the replay (they
+    depend on the specification only). Returns futures; collect with keep_mutants_done."""
+    futs = []
+    for e, k in KEEP_KINDS:
+        cfg = "StateHistory_x_keep_%s_%s.cfg" % (e, k)
+        futs.append((cfg, pool.submit(_retry_oom, ctx.tlc_check, "chain", "MCStateHistory.tla", cfg, workers=2, timeout=900,
+                                      expect_violation=True, label="mutant: RevertHead keeps %s:%s (violation expected)" % (e, k))))
+        if matrix:
+            with open("%s/spec/chain/StateHistory_scripts_x.cfg" % vlib.VERIF) as f:
+                txt = f.read()
+            if "RevertKeeps <- Keep_n_stor0" not in txt:
+                raise vlib.Broken("StateHistory_scripts_x.cfg: no RevertKeeps substitution to rewrite")
+            name = "kill_%s_%s.cfg" % (e, k)
+            futs.append((name, pool.submit(_retry_oom, ctx.tlc_check, "chain", "StateHistoryScripts.tla", name, workers=1, timeout=900,
+                                           expect_violation=True, files={name: txt.replace("Keep_n_stor0", "Keep_%s_%s" % (e, k))},
+                                           label="kill matrix: directed behaviours under RevertHead keeps %s:%s (violation expected)" % (e, k))))
+    return futs
+
+
+def keep_mutants_done(ctx, futs):
+    for cfg, f in futs:
+        r = f.result()
+        if r["violated"] != "ReadsAgree":
+            raise vlib.Broken("%s should violate ReadsAgree (a later read sees what the revert left behind), got %s" % (cfg, r["violated"]))
+    ctx.coverage["revert_residue_mutants"] = len([1 for c, _ in futs if c.startswith("StateHistory_x_keep_")])
+    ctx.coverage["kill_matrix_runs"] = len([1 for c, _ in futs if c.startswith("kill_")])
+
+
+def directed(ctx, fix):
+    """The directed family (StateHistoryScripts.tla): a deterministic machine, printed script by script."""
+    bs = ctx.tlc_simulate("chain", "StateHistoryScripts.tla", "gen_scripts.cfg", depth=2500, seed=1, timeout=900,
+                          files={"gen_scripts.cfg": sim_cfg("StateHistory_scripts.cfg", fix)})
+    names = [b[0].get("script", "") for b in bs]
+    kinds = {n.split("/")[0] for n in names}
+    if len(set(names)) != len(names) or {(k, t) for k in kinds for t in SCRIPT_TAILS} != {tuple(n.split("/")) for n in names} or len(kinds) < 20:
+        raise vlib.Broken("StateHistoryScripts.tla: expected every kind x tail exactly once, got %d scripts: %s" % (len(names), sorted(names)[:12]))
+    ctx.coverage["directed_kinds"] = sorted(kinds)
+    return [{"seed": ctx.seed * 100000 + 50000 + i, "steps": b} for i, b in enumerate(bs)]
+
+
+def fork_shapes(bs):
+    """How often a simulated behaviour reverts an entry of a kind and then stores a block that does not
+    touch its key (the shape in which a leftover of the revert shows)."""
+    def key(o):
+        return (o["k"], o["a"], o["s"], o["c"] if o["k"] in ("decl", "mig") else "")
+    out = {}
+    for b in bs:
+        chain, pend = [], []
+        for st in b["steps"]:
+            a = st["a"]
+            if a["name"] == "Apply":
+                ops = a.get("ops") or []
+                touched = {key(o) for o in ops}
+                for k, kind in pend:
+                    if k not in touched:
+                        out[kind] = out.get(kind, 0) + 1
+                pend = []
+                prev = st["truth"][-2] if len(st["truth"]) > 1 else None
+                chain.append((ops, prev))
+            elif a["name"] == "Revert" and st["res"] == "ok" and chain:
+                ops, prev = chain.pop()
+                for o in ops:
+                    kind = o["k"]
+                    if kind == "stor":
+                        old = prev["con"][o["a"]]["stor"][o["s"]] if prev and prev["con"][o["a"]]["dep"] else 0
+                        kind = "stor:clear" if o["v"] == 0 and old != 0 else "stor:zero-on-zero" if o["v"] == 0 else \
+                            "stor:same" if o["v"] == old else "stor:change"
+                    pend.append((key(o), kind))
     return out
 
 
@@ -119,6 +226,16 @@ def corrupt_truth(b):
     return False
 
 
+def corrupt_enc(b):
+    """Drop one entry from the new-state storage log the model holds after a step: the database then
+    has an entry the (falsified) specification does not."""
+    for st in b["steps"]:
+        if st["res"] == "ok" and st["a"]["name"] != "Restart" and st.get("enc", {}).get("nS"):
+            st["enc"]["nS"].pop()
+            return True
+    return False
+
+
 def run(ctx):
     binary = ctx.build_engine("statehist")
     if ctx.replay:
@@ -129,38 +246,60 @@ def run(ctx):
         return ctx.finish("model_checking", "replay of one recorded behaviour")
 
     thorough = not ctx.quick()
-    ctx.tlc_check("chain", "MCStateHistory.tla", "StateHistory_quick.cfg", timeout=900)
-    ctx.tlc_check("chain", "MCStateHistory.tla", "StateHistory_sys_quick.cfg", timeout=900)
-    ctx.tlc_check("chain", "MCStateHistory.tla", "StateHistory_casm_quick.cfg", timeout=900)
-    # reads that run while the writer stores / reverts (outside C03's quantifier: observation only): a
-    # reader whose two reads see one snapshot is correct under every interleaving, the legacy reader
-    # as coded is not
-    ctx.tlc_check("chain", "MCStateHistory.tla", "StateHistory_race_fixed.cfg", timeout=900)
-    r = ctx.tlc_check("chain", "MCStateHistory.tla", "StateHistory_race.cfg", timeout=900, expect_violation=True,
-                      label="legacy two-read history reader under a concurrent Store (model of an observation; violation expected)")
-    if r["violated"] != "SplitReadOK":
-        raise vlib.Broken("StateHistory_race.cfg should violate SplitReadOK, got %s" % r["violated"])
-    if thorough:
-        r = ctx.tlc_check("chain", "MCStateHistory.tla", "StateHistory_thorough.cfg", timeout=3000, coverage=True)
-        vlib.require_actions_covered(r, ignore=("LReadBegin", "LReadEnd"))  # only enabled in the *_race cfgs
-        ctx.tlc_check("chain", "MCStateHistory.tla", "StateHistory_ops3_thorough.cfg", timeout=3000)
-        ctx.tlc_check("chain", "MCStateHistory.tla", "StateHistory_sys_thorough.cfg", timeout=3000)
-        ctx.tlc_check("chain", "MCStateHistory.tla", "StateHistory_casm_thorough.cfg", timeout=3000)
-
     fix = h4_fixed()
-    bs = behaviours(ctx, "StateHistory_sim.cfg", 8 if thorough else 2, 17 * (150 if thorough else 70), fix, 0)
-    res = run_engine_keep(ctx, binary, "TestHistReplay", {"behaviours": bs}, timeout=3000)
-    ctx.absorb(res, "statehist", "TestHistReplay")
-    # concurrent round: readers of the retained blocks during Store ; RevertHead cycles
-    nconc = 24 if thorough else 5
-    cres = run_engine_keep(ctx, binary, "TestHistConcurrent",
-                           {"behaviours": bs[:nconc], "rounds": 120 if thorough else 30, "readers": 4, "mode": "reads"}, timeout=1500)
-    ctx.absorb(cres, "statehist", "TestHistConcurrent")
-    report_observations(ctx, cres)
-    ctx.coverage["concurrent_rounds"] = cres.get("replayed", 0)
-    # the binding self-test comes last: it can only turn a clean run into Broken, never hide a violation
+    pool = concurrent.futures.ThreadPoolExecutor(max_workers=int(os.environ.get("VERIF_TLC_PARALLEL", "4")))
+    try:
+        # the revert-residue mutants depend on the specification only: they run beside everything else
+        futs = keep_mutants(ctx, pool, matrix=thorough)
+        _retry_oom(ctx.tlc_check, "chain", "MCStateHistory.tla", "StateHistory_quick.cfg", timeout=900)
+        _retry_oom(ctx.tlc_check, "chain", "MCStateHistory.tla", "StateHistory_sys_quick.cfg", timeout=900)
+        _retry_oom(ctx.tlc_check, "chain", "MCStateHistory.tla", "StateHistory_casm_quick.cfg", timeout=900)
+        # reads that run while the writer stores / reverts (outside C03's quantifier: observation only): a
+        # reader whose two reads see one snapshot is correct under every interleaving, the legacy reader
+        # as coded is not
+        _retry_oom(ctx.tlc_check, "chain", "MCStateHistory.tla", "StateHistory_race_fixed.cfg", timeout=900)
+        r = _retry_oom(ctx.tlc_check, "chain", "MCStateHistory.tla", "StateHistory_race.cfg", timeout=900, expect_violation=True,
+                          label="legacy two-read history reader under a concurrent Store (model of an observation; violation expected)")
+        if r["violated"] != "SplitReadOK":
+            raise vlib.Broken("StateHistory_race.cfg should violate SplitReadOK, got %s" % r["violated"])
+        if thorough:
+            r = _retry_oom(ctx.tlc_check, "chain", "MCStateHistory.tla", "StateHistory_thorough.cfg", timeout=3000, coverage=True)
+            vlib.require_actions_covered(r, ignore=("LReadBegin", "LReadEnd"))  # only enabled in the *_race cfgs
+            _retry_oom(ctx.tlc_check, "chain", "MCStateHistory.tla", "StateHistory_ops3_thorough.cfg", timeout=3000)
+            _retry_oom(ctx.tlc_check, "chain", "MCStateHistory.tla", "StateHistory_sys_thorough.cfg", timeout=3000)
+            _retry_oom(ctx.tlc_check, "chain", "MCStateHistory.tla", "StateHistory_casm_thorough.cfg", timeout=3000)
+        dbs = directed(ctx, fix)
+        sim = behaviours(ctx, "StateHistory_sim.cfg", 8 if thorough else 1, 17 * (150 if thorough else 70), fix, 0)
+        fork = behaviours(ctx, "StateHistory_forksim.cfg", 4 if thorough else 1, 17 * (150 if thorough else 70), fix, 20)
+        bs = dbs + sim + fork
+        res = run_engine_keep(ctx, binary, "TestHistReplay", {"behaviours": bs}, timeout=3000)
+        ctx.absorb(res, "statehist", "TestHistReplay")
+        # concurrent round: readers of the retained blocks during Store ; RevertHead cycles
+        nconc = 24 if thorough else 5
+        cres = run_engine_keep(ctx, binary, "TestHistConcurrent",
+                               {"behaviours": sim[:nconc], "rounds": 120 if thorough else 30, "readers": 4, "mode": "reads"}, timeout=1500)
+        ctx.absorb(cres, "statehist", "TestHistConcurrent")
+        report_observations(ctx, cres)
+        ctx.coverage["concurrent_rounds"] = cres.get("replayed", 0)
+        if ctx.violations:
+            # the verdict is about the code; do not wait for (or fail on) the specification-only runs
+            for _, f in futs:
+                f.cancel()
+        else:
+            keep_mutants_done(ctx, futs)
+    finally:
+        pool.shutdown(wait=True, cancel_futures=True)
+    # the binding self-tests come last: they can only turn a clean run into Broken, never hide a violation
     if not ctx.violations:
-        selftest(ctx, binary, "TestHistReplay", bs, corrupt_truth)
+        selftest(ctx, binary, "TestHistReplay", sim, corrupt_truth)
+        first = ctx.coverage.get("selftest")
+        selftest(ctx, binary, "TestHistReplay", dbs, corrupt_enc)
+        if not ctx.coverage["selftest"].startswith("falsified expectation rejected (hist-extra:new:storage"):
+            raise vlib.Broken("binding self-test: a falsified encoding projection was not reported as hist-extra: %s" % ctx.coverage["selftest"])
+        ctx.coverage["selftest"] = [first, ctx.coverage["selftest"]]
+    ctx.coverage["directed_behaviours"] = len(dbs)
+    ctx.coverage["fork_guided_behaviours"] = len(fork)
+    ctx.coverage["revert_then_nontouching_block_by_kind"] = fork_shapes(sim + fork)
     note_unreproduced(ctx)
     ctx.coverage["behaviours_generated"] = len(bs)
     ctx.coverage["steps_replayed"] = res.get("steps", 0)
@@ -173,11 +312,15 @@ def run(ctx):
         "the node under test runs on a store that enforces the buffer-lending contract of db.KeyValueReader (lent values are scribbled after the callback / iterator move)",
         "concurrent round: a state reader is used by one goroutine (one request); readers only ask about blocks that stay retained during the round",
         "a held reader is checked as long as its block is on the chain; after a RevertHead that removes its block, or a restart, it is dropped (closed)",
+        "raw history buckets are compared with the specification's encodings on db/memory dumps of the node under test; declared-at / migrated-at of the CASM metadata are read off its own accessors (the fields are private)",
     ]
     return ctx.finish(
         "model_checking",
         "exhaustive TLC on bounded configurations of StateHistory.tla (every diff of <= MaxOps entries, every "
-        "apply/revert interleaving up to MaxBlocks) + TLC simulation behaviours (16 steps, 4 contracts incl. 0x1/0x2 "
-        "x 3 slots sharing a 250-bit prefix x 4 values, 3 classes, protocol 0.13.2..0.14.1) replayed on both state "
-        "backends with all queries after every step; non-trivial = the behaviour contains at least one RevertHead "
-        "followed by further reads (counted as behaviours_with_revert)")
+        "apply/revert interleaving up to MaxBlocks), 17 revert-residue mutants that must each violate ReadsAgree, "
+        "+ directed behaviours derived from the mutants' counterexamples (every entry kind x 5 tails) + TLC simulation "
+        "behaviours, half of them guided towards revert ; non-touching replacement (16 steps, 4 contracts incl. 0x1/0x2 "
+        "x 3 slots sharing a 250-bit prefix x 4 values, 3-4 classes, protocol 0.13.2..0.14.1), replayed on both state "
+        "backends with all queries and a comparison of the raw history buckets with the specification's encodings after "
+        "every step; non-trivial = the behaviour contains at least one RevertHead followed by further reads (counted as "
+        "behaviours_with_revert)")
